@@ -4,7 +4,7 @@ import MalVerif.Props.C15
 # C15 for the *translated* Python — subtype queries and association lookup of the language graph
 
 `MalVerif/Py/GenLang/Assets.lean` and `GenLang/Assocs.lean` are generated from
-`maltoolbox/language/languagegraph.py` (`LanguageGraphAsset.is_subasset_of`, `get_all_superassets`,
+`maltoolbox/language/languagegraph.py` (`LanguageGraphAsset.is_subasset_of`, `get_all_subassets`, `get_all_superassets`,
 `LanguageGraphAssociation.contains_fieldname`, `contains_asset`, `get_opposite_fieldname`, `get_opposite_asset`,
 `LanguageGraph.get_asset_by_name`, `get_association_by_fields_and_assets`).  The theorems of
 `MalVerif/Props/C15.lean` about the hand model (`isSub_iff_rtc_closed`, `supers_iff_rtc`, `lookup_correct`,
@@ -101,6 +101,30 @@ theorem get_all_superassets_exact (s : GH) (L : Lang) (hG : RepG s L) (a : GARef
       obtain ⟨y, hy, hyx⟩ := List.mem_map.1 h
       rw [← repG_gname_inj hG (hmem y hy) hx hyx]
       exact hy
+
+/-- **`get_all_subassets` (translated) lists exactly the descendants-or-self.**  In a represented graph without
+`extends` cycle it returns (it does not raise and its `while` loop ends within the unrolling bound) a list of
+asset objects of the graph without repetitions, and an asset object of the graph is listed iff its type reaches
+the asset's type by following `extends`. -/
+theorem get_all_subassets_exact (s : GH) (L : Lang) (hG : RepG s L) (hac : Acyclic L) (a : GARef)
+    (ha : a ∈ s.assets) :
+    ∃ l, lgasset_get_all_subassets s a = .ok l ∧ l.Nodup ∧ (∀ x ∈ l, x ∈ s.assets) ∧
+      (∀ x ∈ s.assets, x ∈ l ↔ RTC (Extends L) (gname s x) (gname s a)) := by
+  obtain ⟨l, hl, hnd, hmem, hiff⟩ := get_all_subassets_tie hG hac ha
+  refine ⟨l, hl, hnd, hmem, fun x hx => ?_⟩
+  rw [hiff x hx, MalVerif.C15.isSub_iff_rtc_closed L hG.supers_ok _ _ (hac _)]
+  obtain ⟨d, hd, _⟩ := repG_decl_of_mem hG hx
+  simp [hd]
+
+/-- sub assets and super assets are converse: `x` is listed among the sub assets of `a` iff `a` is listed among
+the super assets of `x` (both translated functions, on the asset objects of an acyclic represented graph) -/
+theorem subassets_superassets_converse (s : GH) (L : Lang) (hG : RepG s L) (hac : Acyclic L) (a x : GARef)
+    (ha : a ∈ s.assets) (hx : x ∈ s.assets) :
+    ∃ subs sups, lgasset_get_all_subassets s a = .ok subs ∧ lgasset_get_all_superassets s x = .ok sups ∧
+      (x ∈ subs ↔ a ∈ sups) := by
+  obtain ⟨subs, h1, _, _, i1⟩ := get_all_subassets_exact s L hG hac a ha
+  obtain ⟨sups, h2, _, _, _, _, i2⟩ := get_all_superassets_exact s L hG x hx (hac _)
+  exact ⟨subs, sups, h1, h2, (i1 x hx).trans (i2 a ha).symm⟩
 
 /-- **`get_asset_by_name` (translated)**: the asset object with that name, `None` iff no such asset type is
 declared -/
@@ -330,6 +354,11 @@ example : RTC (Extends lgL) "Leaf" "Base" := by
 example : lgasset_get_all_superassets (heapOfLang lgL [runs, hl, ho]) 2 = .ok [2, 1, 0] ∧
     lgasset_get_all_superassets (heapOfLang lgL [runs, hl, ho]) 4 = .ok [4] := by decide
 
+/-- `get_all_subassets`: the asset first; all of `Base`'s descendants, only `Leaf` below `Mid` -/
+example : lgasset_get_all_subassets (heapOfLang lgL [runs, hl, ho]) 0 = .ok [0, 1, 3, 2] ∧
+    lgasset_get_all_subassets (heapOfLang lgL [runs, hl, ho]) 1 = .ok [1, 2] ∧
+    lgasset_get_all_subassets (heapOfLang lgL [runs, hl, ho]) 4 = .ok [4] := by decide
+
 /-- `get_asset_by_name` -/
 example : lg_get_asset_by_name (heapOfLang lgL [runs, hl, ho]) "Leaf" = some 2 ∧
     lg_get_asset_by_name (heapOfLang lgL [runs, hl, ho]) "Nope" = none := by decide
@@ -359,12 +388,18 @@ example : lgassoc_get_opposite_fieldname (heapOfLang lgL [runs, hl, ho]) 0 "host
     lgassoc_contains_fieldname (heapOfLang lgL [runs, hl, ho]) 0 "apps" = true ∧
     lgassoc_contains_fieldname (heapOfLang lgL [runs, hl, ho]) 0 "hl" = false := by decide
 
-/-- the hypothesis on cycles is needed for the unrolling bound: in the graph of `cycL` (`A extends B extends A`,
-`C extends A`; still a represented heap) the walk from `C` towards an asset it does not reach never ends — the
-translation reports `nonTermination` where the Python loops forever -/
-example : RepG (heapOfLang cycL []) cycL ∧
-    lgasset_is_subasset_of (heapOfLang cycL []) 2 2 = .ok true ∧
-    lgasset_is_subasset_of (heapOfLang cycL []) 0 2 = .error .nonTermination :=
-  ⟨repG_heapOfLang _ (by decide) (by decide), by decide, by decide⟩
+/-- **the hypothesis on cycles cannot be dropped**: the graph of `cycL` (`A extends B extends A`, `C extends A`)
+is a represented heap, but the walk from `A` towards an asset it does not reach never ends, and neither does the
+collection of `A`'s sub assets — the translation reports `nonTermination` where the Python loops forever (the
+queries that find their target before running round the cycle still answer).  Here the hand model differs: its
+fuel-bounded `isSub "A" "C"` answers `false`. -/
+theorem is_subasset_of_needs_acyclic :
+    RepG (heapOfLang cycL []) cycL ∧ ¬ Acyclic cycL ∧
+    lgasset_is_subasset_of (heapOfLang cycL []) 2 1 = .ok true ∧
+    lgasset_is_subasset_of (heapOfLang cycL []) 0 2 = .error .nonTermination ∧ cycL.isSub "A" "C" = false ∧
+    lgasset_get_all_superassets (heapOfLang cycL []) 2 = .error .nonTermination ∧
+    lgasset_get_all_subassets (heapOfLang cycL []) 0 = .error .nonTermination :=
+  ⟨repG_heapOfLang _ (by decide) (by decide),
+   fun hac => absurd (hac "C") (by decide), by decide, by decide, by decide, by decide, by decide⟩
 
 end MalVerif.PropsGen.C15
